@@ -194,7 +194,30 @@ def _obs_scope_x(wn, w):
     o['identity'] = identity_violations(wn, w)
     o['synsets_x'] = [obs_synset_x(wn, x) for x in w.synsets()]
     o['senses_x'] = [obs_sense_x(wn, x) for x in w.senses()]
+    o['nav'] = obs_nav(wn, w)
     return o
+
+
+def obs_nav(wn, w):
+    """word.synsets(), synset.words(), synset.lemmas() next to the sense lists they are images of"""
+    def ref(e):
+        return [_spec(e.lexicon()), e.id]
+
+    def safe(f):
+        try:
+            return f()
+        except wn.Error:
+            return 'error'
+    out = {'words': [], 'synsets': []}
+    for x in w.words():
+        out['words'].append({'ref': ref(x), 'synsets': safe(lambda: [ref(y) for y in x.synsets()]),
+                             'via_senses': safe(lambda: [ref(s.synset()) for s in x.senses()])})
+    for y in w.synsets():
+        out['synsets'].append({'ref': ref(y), 'words': safe(lambda: [ref(x) for x in y.words()]),
+                               'lemmas': safe(lambda: [str(l) for l in y.lemmas()]),
+                               'via_senses': safe(lambda: [ref(s.word()) for s in y.senses()]),
+                               'lemmas_via_senses': safe(lambda: [str(s.word().lemma()) for s in y.senses()])})
+    return out
 
 
 def battery(wn, op):
